@@ -164,12 +164,13 @@ def _prepare(repo, rep):
         rep.count("paths", len(paths))
         ok = True
         for p in paths:
-            found = any("index is not None" in src(e[1]) and e[2]
-                        for e in p if e[0] == "cond")
+            pc = [(src(e[1]), e[2]) for e in p if e[0] == "cond"]
+            found = L.cond_holds(pc, "index is not None", True)
             adders = [src(e[2]) for e in p if e[0] == "assign"
                       and e[1] == "add"]
             ci = max([k for k, e in enumerate(p) if e[0] == "cond" and
-                      "index is not None" in src(e[1])] or [0])
+                      src(e[1]).replace(" ", "") in (
+                          "indexisNone", "indexisnotNone")] or [0])
             idx = [src(e[2]) for e in p[ci:] if e[0] == "assign"
                    and e[1] == "index"]
             calls = [src(c) for c, _ in P.calls_on_path(p)
@@ -284,8 +285,9 @@ def leaves(v, conds=()):
 
 
 def holds(conds, fragment, value=True):
-    """some condition whose text contains ``fragment`` has the given truth"""
-    return any(fragment in t and b is value for t, b in conds)
+    """some condition whose text contains ``fragment`` has the given truth
+    (polarity-normalised: 'x is not None' true == 'x is None' false)"""
+    return L.cond_holds(conds, fragment, value, contains=True)
 
 
 def _choice(repo, rep):
